@@ -218,7 +218,13 @@ def _ev(e, x):
         return x <= 0
     if h == 'finite':
         # (every int is a finite number, also one too large for a float - math.isfinite would overflow on it)
-        return (isinstance(x, int) and not isinstance(x, bool)) or bool(math.isfinite(x))
+        import decimal
+        import fractions
+        if isinstance(x, (int, fractions.Fraction)) and not isinstance(x, bool):
+            return True           # exact numbers are finite whatever their size
+        if isinstance(x, decimal.Decimal):
+            return x.is_finite()
+        return bool(math.isfinite(x))
     if h == 'empty':
         return len(x) == 0
     if h == 'nonempty':
@@ -277,6 +283,9 @@ def inner_types():
         # instances of int SUBCLASSES are ints too: a declared subclass, and an IntEnum with a member beyond the float range
         'sub_int': (grammar.SubInt, [-1, 0, 5, 10 ** 400, 2 ** 53 + 1]),
         'int_enum': (_int_enum(), [1, 10 ** 400, 2]),
+        # exact and decimal numbers beyond the float range are still finite numbers; Decimal has its own infinities
+        'fraction': (__import__('fractions').Fraction, ['1/3', 5, 10 ** 400, '-1/7']),
+        'decimal': (__import__('decimal').Decimal, ['1.5', '1e400', '-1e400', 'Infinity', 'NaN', 5]),
         'date': (__import__('datetime').date, ['2019-12-31', '2020-01-01', '2024-05-01', 'x']),
         'float': (float, [-1, 0, 1, 4, 5, 6, 2.5, -0.0, 5.0, values.INF, -values.INF, values.NAN, 1e300, 4.999999999]),
         'str': (str, ['', 'a', 'ab', 'abc', 'b']),
